@@ -48,23 +48,18 @@ Print Assumptions C08_nonwf_refuted.
 
 (** Non-vacuity of the wf hypothesis: the repaired program (mod as a PC coroutine) is wf, both schedules of the
     refutation are legal for it, and they produce the same labelled events (up to order). *)
-Definition modP_fixed : body -> body :=
-  Fork PC Done (Act Await (Fork PC Done (Act (Send 1) (Act Await Done)) Done)).
-Definition fixed_prog : body :=
-  Fork PC Done (Act (Recv 0) (Act Await Done))
-    (Act Await (modP_fixed (mulP (Act Await (mulP (Act Await Done)))))).
 Definition schedA' : list (option nat) := [None; None; None; None; None; None; None; Some 1; Some 1; Some 1].
 Definition schedB' : list (option nat) := [None; None; None; None; None; Some 1; Some 1; Some 1; None; None].
 
 Example C08_nonvacuous :
-  wf_body fixed_prog = true /\
-  legal hop_ex (0%Z, 0) fixed_prog schedA' = true /\ legal hop_ex (0%Z, 0) fixed_prog schedB' = true /\
-  length (trace (run hop_ex (0%Z, 0) fixed_prog schedA')) = 5 /\
+  wf_body fc08_fixed = true /\
+  legal hop_ex (0%Z, 0) fc08_fixed schedA' = true /\ legal hop_ex (0%Z, 0) fc08_fixed schedB' = true /\
+  length (trace (run hop_ex (0%Z, 0) fc08_fixed schedA')) = 5 /\
   forallb (fun e => existsb (fun e' => match e, e' with
                                       | (p, EvFork a b), (p', EvFork a' b') =>
                                           (if list_eq_dec (fun x y : dir => ltac:(decide equality)) p p' then true else false)
                                           && Z.eqb a a' && Nat.eqb b b'
                                       | _, _ => false end)
-                            (trace (run hop_ex (0%Z, 0) fixed_prog schedB')))
-          (trace (run hop_ex (0%Z, 0) fixed_prog schedA')) = true.
+                            (trace (run hop_ex (0%Z, 0) fc08_fixed schedB')))
+          (trace (run hop_ex (0%Z, 0) fc08_fixed schedA')) = true.
 Proof. vm_compute. repeat split; reflexivity. Qed.
